@@ -45,7 +45,9 @@ RULE = ('Corpus of Hypothesis-generated (state, request) pairs over every '
 WRITE_OPS = c17.WRITE_OPS + ['update_rp', 'update_rp', 'post_allocations',
                              'reshaper', 'move_subtree', 'move_subtree',
                              'move_subtree', 'post_allocations_existing',
-                             'post_allocations_existing']
+                             'post_allocations_existing',
+                             'delete_allocations_held',
+                             'delete_allocations_held']
 
 
 def core(d):
@@ -220,8 +222,26 @@ def post_allocations_existing(draw, d):
     return req
 
 
+def delete_allocations_held(draw, d):
+    """DELETE /allocations/{c} for a consumer that holds allocations,
+    preferably on several providers (one write unit: all rows + the consumer
+    record)."""
+    spread = {}
+    for (c, rp, _rc) in d.allocations:
+        spread.setdefault(c, set()).add(rp)
+    if not spread:
+        return machine.build(draw, d, PROFILE, 'delete_allocations')
+    wide = sorted(c for c, s_ in spread.items() if len(s_) >= 2)
+    c = draw(st.sampled_from(wide or sorted(spread)))
+    return gen.R('DELETE', '/allocations/' + c, (1, draw(st.sampled_from(
+        [39, 28, 12, 0]))), None, 'delete_allocations',
+        ['held-on-%d-providers' % min(len(spread[c]), 3)], consumers=[c])
+
+
 def build_request(draw, d):
     name = draw(st.sampled_from(WRITE_OPS))
+    if name == 'delete_allocations_held':
+        return delete_allocations_held(draw, d)
     if name == 'move_subtree':
         return move_subtree(draw, d)
     if name == 'post_allocations_existing':
